@@ -58,8 +58,13 @@ func (cache *Cache) evict() {
 
 // writeSignature writes the parts of the signature that determine a verification verdict
 // to the cache key: the claimed participants, which are not covered by ToBytes, and the signature bytes.
+// The number of participants comes first, so that the list of ids cannot run into the signature bytes.
 func writeSignature(key *strings.Builder, signature hotstuff.QuorumSignature) {
-	signature.Participants().ForEach(func(id hotstuff.ID) {
+	participants := signature.Participants()
+	var count [4]byte
+	binary.LittleEndian.PutUint32(count[:], uint32(participants.Len()))
+	_, _ = key.Write(count[:])
+	participants.ForEach(func(id hotstuff.ID) {
 		_, _ = key.Write(id.ToBytes())
 	})
 	_, _ = key.Write(signature.ToBytes())
